@@ -80,6 +80,9 @@ def rule_console_stream_exclusive(ctx, p, cfg, rid="J7"):
 
 def run_cfg(ctx, p, cfg):
     rule_console_stream_exclusive(ctx, p, cfg, "J7")
+    if "file_appender" in p.meta.get("features", []):
+        from rules import c04
+        c04.rule_open_options(ctx, p, cfg, "J8")   # sink-side premise: lines written through several handles on one file do not overwrite each other (O_APPEND; C04.R4 re-evaluated)
     if "rolling_file_appender" in p.meta.get("features", []):
         # sink-side premise of "one record, one line": the file the lines go to is reopened in append mode unless it was just
         # truncated, so a line is never written over lines that are kept (C05.R5 re-evaluated)
